@@ -91,6 +91,13 @@ pub trait Storage: Sync + Send + 'static {
 
     fn drop_table(&self, table_id: TableRefId) -> impl Future<Output = StorageResult<()>> + Send;
 
+    /// Drops the tables of one `DROP TABLE a, b, ..` statement: all of them or, on an error
+    /// (or a crash), none.
+    fn drop_tables(
+        &self,
+        table_ids: &[TableRefId],
+    ) -> impl Future<Output = StorageResult<()>> + Send;
+
     fn create_index(
         &self,
         schema_id: SchemaId,
